@@ -3,6 +3,7 @@ import TenpyModel.C20.Cache
 Specification (a plain dictionary per cache) and the refinement invariant for the `DictCache`
 model.  The property theorems are in `PropsCache.lean`.
 -/
+set_option linter.unusedSimpArgs false
 namespace TenpyModel.C20.Cache
 
 /-! ### the dictionary specification: association list, Python `dict` semantics -/
